@@ -208,7 +208,13 @@ fn judge_draw(out: &mut Out, line: &str, prev: &St, m: usize, (w, h): (u32, u32)
         out.fail("driver-answer", line, &format!("unparsable redraw answer `{ans}`"));
         return None;
     };
-    if k > m || (prev.query.is_empty() && k != m) {
+    judge_redraw(out, line, prev, m, prev.query.is_empty(), (w, h), k, &st);
+    Some((k, st))
+}
+
+/// the part of `judge_draw` that looks at the parsed answer; `all_listed`: every one of the `m` aircraft must be shown
+fn judge_redraw(out: &mut Out, line: &str, prev: &St, m: usize, all_listed: bool, (w, h): (u32, u32), k: usize, st: &St) {
+    if k > m || (all_listed && k != m) {
         out.fail("draw-rows", line, &format!("{m} aircraft offered, query `{}`: {k} rows", prev.query));
     }
     let mut same = st.clone();
@@ -227,13 +233,145 @@ fn judge_draw(out: &mut Out, line: &str, prev: &St, m: usize, (w, h): (u32, u32)
             out.fail("draw-selection", line, &format!("{k} rows drawn on {w}x{h}: selection {:?} -> {:?}", prev.sel, st.sel));
         }
     }
-    Some((k, st))
+}
+
+/// One aircraft of a `Fleet:` step: `icao24/callsign/typecode/registration/name/count/age` (`~` = None).
+#[derive(Clone, Debug)]
+struct Ac {
+    icao24: String,
+    callsign: Option<String>,
+    typecode: Option<String>,
+    registration: Option<String>,
+    name: Option<String>,
+    count: u64,
+    age: i64,
+}
+
+fn parse_fleet(tok: &str) -> Option<Vec<Ac>> {
+    let rest = tok.strip_prefix("Fleet:")?;
+    let opt = |s: &str| (s != "~").then(|| s.to_string());
+    rest.split(';')
+        .filter(|a| !a.is_empty())
+        .map(|a| {
+            let f: Vec<&str> = a.split('/').collect();
+            if f.len() != 7 {
+                return None;
+            }
+            Some(Ac {
+                icao24: f[0].into(),
+                callsign: opt(f[1]),
+                typecode: opt(f[2]),
+                registration: opt(f[3]),
+                name: opt(f[4]),
+                count: f[5].parse().ok()?,
+                age: f[6].parse().ok()?,
+            })
+        })
+        .collect()
+}
+
+fn is_literal_query(q: &str) -> bool {
+    q.chars().all(|c| c.is_ascii_alphanumeric() || c == '-' || c == '/')
+}
+
+/// The rows the property expects for a query without regex metacharacters, written from the help text of the
+/// search box (case-insensitive substring of callsign / address / type / registration / receiver name, dashes
+/// ignored in the query and in the registration; only aircraft seen more than once in the last 30 s are listed).
+fn expected_items(fleet: &[Ac], query: &str) -> Vec<String> {
+    let q = query.to_lowercase().replace('-', "");
+    fleet
+        .iter()
+        .filter(|a| a.count > 1 && a.age < 30)
+        .filter(|a| {
+            let has = |o: &Option<String>| o.as_ref().is_some_and(|s| s.to_lowercase().contains(&q));
+            has(&a.callsign)
+                || a.icao24.to_lowercase().contains(&q)
+                || has(&a.typecode)
+                || a.registration.as_ref().is_some_and(|s| s.replace('-', "").to_lowercase().contains(&q))
+                || has(&a.name)
+        })
+        .map(|a| a.icao24.clone())
+        .collect()
+}
+
+/// The property of one `Fleet:` redraw, independent of the Lean model: `judge_draw` on the row count, plus: the
+/// items are aircraft of the fleet, in map order, each seen more than once and recently; for a query without regex
+/// metacharacters they are exactly the aircraft the query matches; the ratatui table has one row per item (the
+/// number in its title, when visible).  Returns (rows, state, the answer without the `title=` word).
+fn judge_fleet(out: &mut Out, line: &str, prev: &St, fleet: &[Ac], term: (u32, u32), ans: &str) -> Option<(usize, St, String)> {
+    if ans == "panic" {
+        judge_draw(out, line, prev, fleet.len(), term, ans);
+        return None;
+    }
+    let parsed = (|| {
+        let (rows, rest) = ans.split_once(" items=")?;
+        let (items, rest) = rest.split_once(" title=")?;
+        let (title, st) = rest.split_once(' ')?;
+        Some((rows.to_string(), items.to_string(), title.to_string(), st.to_string()))
+    })();
+    let Some((rows, items, title, st)) = parsed else {
+        out.fail("driver-answer", line, &format!("unparsable fleet answer `{ans}`"));
+        return None;
+    };
+    let items_v: Vec<String> = if items.is_empty() { vec![] } else { items.split(',').map(|s| s.to_string()).collect() };
+    let parsed = rows.strip_prefix("rows=").and_then(|k| k.parse::<usize>().ok()).zip(parse_state(&st));
+    let Some((k, st2)) = parsed else {
+        out.fail("driver-answer", line, &format!("unparsable fleet answer `{ans}`"));
+        return None;
+    };
+    let listable = fleet.iter().filter(|a| a.count > 1 && a.age < 30).count();
+    judge_redraw(out, line, prev, listable, prev.query.is_empty(), term, k, &st2);
+    if items_v.len() != k {
+        out.fail("fleet-items", line, &format!("rows={k} but items={items}"));
+    }
+    // a subsequence of the fleet, every one listable
+    let mut it = fleet.iter();
+    for id in &items_v {
+        match it.find(|a| &a.icao24 == id) {
+            Some(a) if a.count > 1 && a.age < 30 => {}
+            Some(a) => out.fail("fleet-items", line, &format!("{id} is listed although count={} age={}", a.count, a.age)),
+            None => out.fail("fleet-items", line, &format!("{id} is not an aircraft of the fleet (or out of order): items={items}")),
+        }
+    }
+    if is_literal_query(&prev.query) {
+        let want = expected_items(fleet, &prev.query);
+        if want != items_v {
+            out.fail("fleet-filter", line, &format!("query `{}`: displayed {items_v:?}, expected {want:?}", prev.query));
+        }
+    }
+    if title != "-" && title.parse::<usize>().ok() != Some(k) {
+        out.fail("fleet-title", line, &format!("the table shows {title} rows, items holds {k}"));
+    }
+    Some((k, st2, format!("{rows} items={items} {st}")))
 }
 
 /// Judge a whole trace (`tui` answer) step by step (events, `Draw<m>[:<k>]`, `Term<w>x<h>`).  Returns the
 /// scenario with every `Draw<m>` completed to `Draw<m>:<k>`, `k` = the row count the real `build_table` reported
 /// (the op line handed to the model, which does not model the search filter).
 fn judge_trace(out: &mut Out, line: &str, init: &str, steps: &[&str], answer: &str) -> Vec<String> {
+    judge_trace2(out, line, init, steps, answer).0
+}
+
+/// … also returns the answer as the model gives it (the `title=<N>` word of `Fleet:` steps removed).
+fn judge_trace2(out: &mut Out, line: &str, init: &str, steps: &[&str], answer: &str) -> (Vec<String>, String) {
+    let strip = |a: &str| -> String {
+        a.split(" | ")
+            .map(|seg| match (seg.find(" title="), seg.starts_with("rows=")) {
+                (Some(i), true) => {
+                    let rest = &seg[i + 1..];
+                    let after = rest.split_once(' ').map_or("", |(_, r)| r);
+                    format!("{} {}", &seg[..i], after)
+                }
+                _ => seg.to_string(),
+            })
+            .collect::<Vec<_>>()
+            .join(" | ")
+    };
+    let canon = judge_trace1(out, line, init, steps, answer);
+    (canon, strip(answer))
+}
+
+fn judge_trace1(out: &mut Out, line: &str, init: &str, steps: &[&str], answer: &str) -> Vec<String> {
     let mut canon: Vec<String> = steps
         .iter()
         .map(|t| match parse_draw(t) {
@@ -253,7 +391,18 @@ fn judge_trace(out: &mut Out, line: &str, init: &str, steps: &[&str], answer: &s
             out.fail("driver-answer", line, &format!("trace ends after {} of {} steps", segs.len(), steps.len()));
             return canon;
         };
-        if let Some((m, given)) = parse_draw(tok) {
+        if let Some(fleet) = parse_fleet(tok) {
+            match judge_fleet(out, line, &st, &fleet, term, seg) {
+                Some((k, s2, _)) => {
+                    n = k;
+                    st = s2;
+                }
+                None => return canon,
+            }
+        } else if tok.starts_with("Fleet:") {
+            out.notes.push(format!("bad Fleet token in: {line}"));
+            return canon;
+        } else if let Some((m, given)) = parse_draw(tok) {
             match judge_draw(out, line, &st, m, term, seg) {
                 Some((k, s2)) => {
                     if given.is_none() {
@@ -478,6 +627,143 @@ fn draw_runs(out: &mut Out, jet: &mut Jet, rng: &mut Rng, count: usize) {
     }
 }
 
+const HEXES: [&str; 10] = ["000a1f", "0a1b2c", "a1b2c3", "abcdef", "3c6589", "400a1b", "4b1805", "ffffff", "39ac45", "00000a"];
+
+fn random_ac(rng: &mut Rng, icao24: &str) -> String {
+    let o = |rng: &mut Rng, xs: &[&str]| if rng.chance(1, 3) { "~".to_string() } else { rng.pick(xs).to_string() };
+    let cs = o(rng, &["AFR12AB", "BAW3", "afr", "A-B", "EZY1a1f", "DLH400"]);
+    let tc = o(rng, &["A320", "B738", "a20n", "C172"]);
+    let reg = o(rng, &["F-GKXA", "D-AIBA", "N123AB", "G-EZAB", "FGKXA", "-"]);
+    let name = o(rng, &["rx1", "paris", "A320rx", "f-g"]);
+    let count = match rng.below(8) {
+        0 => 0,
+        1 => 1,
+        2 => 2,
+        _ => 2 + rng.below(500),
+    };
+    let age = match rng.below(10) {
+        0 => -5,
+        1 => 40,
+        2 => 100,
+        3 => 20,
+        4 => 10,
+        _ => 0,
+    };
+    format!("{icao24}/{cs}/{tc}/{reg}/{name}/{count}/{age}")
+}
+
+fn random_fleet(rng: &mut Rng, pool: &mut Vec<String>) -> String {
+    // aircraft appear, disappear, change their fields and age out between two redraws
+    match rng.below(6) {
+        0 => pool.clear(),
+        1 => {
+            if !pool.is_empty() {
+                let i = rng.below(pool.len() as u64) as usize;
+                pool.remove(i);
+            }
+        }
+        2 | 3 => {
+            let id = rng.pick(&HEXES).to_string();
+            pool.retain(|a| !a.starts_with(&id));
+            let ac = random_ac(rng, &id);
+            pool.push(ac);
+        }
+        4 => {
+            pool.clear();
+            for id in HEXES {
+                if rng.chance(1, 2) {
+                    let ac = random_ac(rng, id);
+                    pool.push(ac);
+                }
+            }
+        }
+        _ => {}
+    }
+    pool.sort(); // the order of the BTreeMap (keys = addresses, all of the same length)
+    format!("Fleet:{}", pool.join(";"))
+}
+
+/// Search sessions on chosen aircraft (driver step `Fleet:`): typing / deleting characters in the search box,
+/// navigation keys, redraws with a fleet that changes between two key presses, resizes.  `regex = false`: queries
+/// without metacharacters — the displayed rows are compared with the model's `displayed litMatch` and with
+/// `expected_items`; `regex = true`: any printable character may be typed (invalid and wildcard regexes
+/// included) — judged by the oracle only (no panic, rows ⊆ fleet, selection in range after the redraw).
+fn fleet_runs(out: &mut Out, jet: &mut Jet, rng: &mut Rng, count: usize, regex: bool) {
+    let mut lines: Vec<String> = vec![];
+    if !regex {
+        // every single-character query of the search alphabet and a few longer ones against one fixed fleet, with
+        // every selection of a 4-row table (valid or stale after the filter)
+        let fleet = "Fleet:000a1f/AFR12AB/A320/F-GKXA/rx1/2/0;0a1b2c/~/~/~/~/2/0;3c6589/DLH400/a20n/D-AIBA/paris/7/10;\
+                     400a1b/BAW3/B738/G-EZAB/~/3/20;abcdef/~/~/~/~/1/0;ffffff/EZY1a1f/~/~/rx1/9/40";
+        let mut queries: Vec<String> = "0123456789abcdefABCDEFgGxXrRpP-/".chars().map(|c| c.to_string()).collect();
+        queries.extend(["a 1", "A 3 2 0", "f - g", "F G K", "d - a - i", "r x 1", "p a r i s", "0 0 0 0 0 0 0", "- -", "4 0 0", "z z"].iter().map(|s| s.to_string()));
+        for q in &queries {
+            for sel in 0..=4usize {
+                lines.push(format!("tui 4:{sel} {fleet} / {q} {fleet} Down {fleet} Backspace {fleet} Esc {fleet}"));
+            }
+        }
+    }
+    for _ in 0..count {
+        let mut pool: Vec<String> = vec![];
+        let n = rng.below(5) as usize;
+        let init = match rng.below(3) {
+            0 => format!("{n}"),
+            1 => format!("{n}:0"),
+            _ => format!("{n}:{}", rng.below(8)),
+        };
+        let maxlen = if rng.chance(1, 8) { 100 } else { 30 };
+        let len = 3 + rng.below(maxlen) as usize;
+        let mut steps = vec![];
+        for _ in 0..len {
+            match rng.below(100) {
+                0..=34 => steps.push(random_fleet(rng, &mut pool)),
+                35..=38 => {
+                    let (w, h) = match rng.below(4) {
+                        0 => (1 + rng.below(8), rng.below(8)),
+                        _ => (20 + rng.below(280), 5 + rng.below(80)),
+                    };
+                    steps.push(format!("Term{w}x{h}"));
+                }
+                39..=48 => steps.push(rng.pick(&["/", "/", "Enter", "Esc", "Backspace", "Backspace"]).to_string()),
+                49..=58 => steps.push(rng.pick(&["j", "k", "Up", "Down", "g", "Home"]).to_string()),
+                59..=61 => steps.push(format!("Tick{}", rng.below(300))),
+                _ => {
+                    if regex && rng.chance(1, 2) {
+                        steps.push(rng.pick(&[".", "*", "(", ")", "[", "]", "{", "}", "|", "\\", "+", "?", "^", "$", "9", ","]).to_string());
+                    } else {
+                        steps.push(rng.pick(&["0", "1", "a", "f", "A", "F", "3", "2", "-", "g", "k", "x", "r", "b", "c", "4"]).to_string());
+                    }
+                }
+            }
+        }
+        // every session ends with a redraw
+        steps.push(random_fleet(rng, &mut pool));
+        lines.push(format!("tui {init} {}", steps.join(" ")));
+    }
+    let answers = jet.batch(&lines);
+    for (line, ans) in lines.iter().zip(answers.iter()) {
+        let w: Vec<&str> = line.split(' ').collect();
+        let (_, model_ans) = judge_trace2(out, line, w[1], &w[2..], ans);
+        let nfleet = w[2..].iter().filter(|t| t.starts_with("Fleet:")).count() as u64;
+        let filtered = ans.split(" | ").zip(w[2..].iter()).filter(|(seg, tok)| {
+            parse_fleet(tok).is_some_and(|f| {
+                let listable = f.iter().filter(|a| a.count > 1 && a.age < 30).count();
+                seg.strip_prefix("rows=").and_then(|r| r.split(' ').next()).and_then(|k| k.parse::<usize>().ok()).is_some_and(|k| k < listable)
+            })
+        }).count() as u64;
+        if regex {
+            out.stat("fleet-run-regex");
+            out.stat_n("fleet-redraws-regex", nfleet);
+            out.stat_n("fleet-redraws-regex-filtered-by-query", filtered);
+        } else {
+            out.case(line, &model_ans);
+            out.stat("fleet-run");
+            out.stat_n("fleet-redraws", nfleet);
+            out.stat_n("fleet-redraws-filtered-by-query", filtered);
+        }
+    }
+}
+
 pub fn one(out: &mut Out, line: &str) {
     let mut jet = Jet::new(&out.dir.clone());
     let w: Vec<&str> = line.split_whitespace().collect();
@@ -487,7 +773,7 @@ pub fn one(out: &mut Out, line: &str) {
     }
     let scenario = format!("tui {}", w[1..].join(" "));
     let ans = jet.batch(&[scenario.clone()]).pop().unwrap();
-    let canon = judge_trace(out, &scenario, w[1], &w[2..], &ans);
+    let (canon, ans) = judge_trace2(out, &scenario, w[1], &w[2..], &ans);
     let op = format!("{} {} {}", w[0], w[1], canon.join(" "));
     if w[0] == "tuis" {
         out.case(op.trim_end(), ans.split(" | ").last().unwrap_or(""));
@@ -504,6 +790,8 @@ pub fn run(out: &mut Out, rng: &mut Rng, thorough: bool) {
     for l in [
         "tui 0:0 j", "tui 0:0 k", "tui 0:0 Up", "tui 0:0 Down", "tui 0 j j", "tui 0 k Down", "tui 0 / j Down Up",
         "tui 3:7 Draw3 k", "tui 3:2 Draw0 j Draw2 k", "tui 3:2 Term4x30 Draw1 k", "tui 3:2 Term100x2 Draw1 Term100x3 Draw1",
+        // typing into the search box shrinks the displayed rows below the selection: the redraw clamps it
+        "tui 2:1 / b Fleet:aaaaaa/~/~/~/~/2/0;bbbbbb/~/~/~/~/2/0 Backspace a Fleet:aaaaaa/~/~/~/~/2/0;bbbbbb/~/~/~/~/2/0 z Fleet:aaaaaa/~/~/~/~/2/0;bbbbbb/~/~/~/~/2/0 k",
     ] {
         one(out, l);
     }
@@ -540,5 +828,7 @@ pub fn run(out: &mut Out, rng: &mut Rng, thorough: bool) {
     }
     random_runs(out, &mut jet, rng, if thorough { 4000 } else { 400 });
     draw_runs(out, &mut jet, rng, if thorough { 3000 } else { 300 });
+    fleet_runs(out, &mut jet, rng, if thorough { 3000 } else { 300 }, false);
+    fleet_runs(out, &mut jet, rng, if thorough { 1000 } else { 150 }, true);
     out.notes.push(format!("driver scenarios executed by the real update(): {}", jet.lines));
 }
